@@ -236,16 +236,21 @@ class Gen(object):
     def render(self):
         """(v2 text, v3 text by the documented mapping)"""
         v2, v3 = [], []
-        for name, res, args, style in self.cmds:
+        allnamed = self.rnd.random() < 0.2     # every command carries a result name; v2 and MPilot command names mixed
+        for idx, (name, res, args, style) in enumerate(self.cmds):
             a = ",\n    ".join("%s = %s" % kv for kv in args)
             target = REF[name]
             v3.append("%s = %s(\n    %s\n)" % (res, target, a))
-            if style == "v2in":
+            if allnamed and style != "v2in":
+                v2.append("%s = %s(\n    %s\n)" % (res, name if idx % 2 == 0 else target, a))
+            elif style == "v2in":
                 v2.append("%s(\n    %s\n)" % (name, a))
-            elif style == "v2new":
-                v2.append("%s(\n    %s,\n    NewFieldName = %s\n)" % (name, a, res))
-            elif style == "v2out":
-                v2.append("%s(\n    %s,\n    OutFileName = ignored_%s.csv,\n    NewFieldName = %s\n)" % (name, a, res, res))
+            elif style in ("v2new", "v2out"):
+                extra = [("NewFieldName", res)] + ([("OutFileName", "ignored_%s.csv" % res)] if style == "v2out" else [])
+                al = list(args)
+                for kv in extra:      # the v2-only arguments may stand anywhere among the others
+                    al.insert(self.rnd.randint(0, len(al)) if self.rnd.random() < 0.5 else len(al), kv)
+                v2.append("%s(\n    %s\n)" % (name, ",\n    ".join("%s = %s" % kv for kv in al)))
             else:  # MPilot-style command inside the v2 file, still using the v2 command name half of the time
                 v2.append("%s = %s(\n    %s\n)" % (res, name if self.rnd.random() < 0.5 else target, a))
         return "\n".join(v2), "\n".join(v3)
